@@ -23,6 +23,7 @@ class Skip(Exception):
     """No generator for this type."""
 
 
+DECLARED = {}  # generated class -> constants exactly as the generator declared them (own and inherited): the harness's own truth
 ALL_CONSTS = {"@context", "@type"}  # names of constant fields of all classes seen (ignored on input, never "provided values")
 SUBCLASSES = {}  # generated class -> list of generated subclasses (inheritance chains at nested positions)
 
@@ -227,12 +228,18 @@ def gen_class(rng, nested_pool=(), base=None, tag="G", simple=False):
             SUBCLASSES.setdefault(b, []).append(cls)
     if "rec" in ann:
         cls.update_forward_refs(**{name: cls})
+    declared = dict(DECLARED.get(base, {}))
     if rng.random() < 0.25 and not simple:
-        consts = {f"c{_ctr[0]}": rng.choice([1, "const", [1, 2], {"k": "v"}, True])}
+        # (falsy values are values too: 0, False, "", empty containers)
+        consts = {f"c{_ctr[0]}": rng.choice([1, "const", [1, 2], {"k": "v"}, True, 0, False, "", [], {}, 0.0])}
         cls = add_const_fields(consts)(cls)
         ALL_CONSTS.update(consts)
+        declared.update(consts)
     if rng.random() < 0.15 and issubclass(cls, LDSchema):
-        cls = ld(context="https://example.org/ctx", type=name)(cls)
+        extra = rng.choice([{}, {}, {"protected": False}, {"version": 0}, {"language": ""}, {"protected": True, "version": 1.1}, {"graph": []}])
+        cls = ld(context="https://example.org/ctx", type=name, **extra)(cls)
+        declared.update({"@context": "https://example.org/ctx", "@type": name, **{"@" + k: v for k, v in extra.items()}})
+        ALL_CONSTS.update("@" + k for k in extra)
     if inherited and rng.random() < 0.3:
         opt = [n for n in inherited if not base.__fields__[n].required and n not in getattr(base, "__constants__", {})
                and n not in ann and n != "rec" and n != "id_"]
@@ -241,6 +248,7 @@ def gen_class(rng, nested_pool=(), base=None, tag="G", simple=False):
                 cls = make_mandatory(rng.choice(opt))(cls)
             except Exception:
                 pass
+    DECLARED[cls] = declared
     return cls
 
 
